@@ -8,7 +8,10 @@ PART = {
                 "{leader,member,joiner,leaver,outsider} x key {right, another member's, fresh attacker key substituted under the member's address with / without "
                 "self-signature} x variant {names itself / keeps the leader; for itself / for another member} x victim {leader,remainer,joiner,leaver} x epoch {1,2}, "
                 "plus every single-field alteration of the honest signed packet (scalars, each participant's address/key/signature, membership, order, oneof type), "
-                "plus right key over other terms, plus a two-step chain (leader swaps a member key, swapped key accepts). Verdict from the raw dkg.db before/after "
+                "plus right key over other terms, plus a two-step chain (leader swaps a member key, swapped key accepts), plus duplicate-address forgeries against "
+                "current members (claimed sender's address twice: attacker key + genuine key, second entry in Remaining/Leaving/Joining, both orders, sender leader/member), "
+                "plus order-preserving moves across the Joining|Remaining and Remaining|Leaving boundaries of the signed serialisation on an alternative leader-signed "
+                "proposal shape (remaining 4, leaving 1, joining 2, threshold 4) in which such a move keeps every validity rule. Verdict from the raw dkg.db before/after "
                 "against the harness's own bookkeeping of who signed what. A cell is non-trivial iff the untouched honest packet of its (stage,victim,type) group "
                 "was accepted (ok + db change) on a pristine fork; distinct by (scheme,epoch,type,sender,key,variant,victim-role,mutation)",
         "assumptions": ["BLS/kyber signature verification and bbolt are trusted",
